@@ -42,8 +42,20 @@ OpenNext ==
 
 MCNext == (mode # "closed" /\ OpenNext) \/ (Reopen("NC_NOERR") /\ tk' = tk)
 
+(* attribute-list generator (exhaustive, one execution per transition): put / overwrite / rename / delete of global
+   attributes over a small name universe, in the creating define mode *)
+AttNext ==
+    \/ \E n \in Names : \E rc \in PutAttRcs(-1, Att(n, "int", <<7>>)) :
+          Len(gatts) < 4 /\ PutAtt(-1, Att(n, "int", <<7>>), rc) /\ tk' = tk
+    \/ \E o \in Names, n \in Names :
+          RenameAtt(-1, o, n, NLen(o), NLen(n), RenameAttRc(-1, o, n, NLen(o), NLen(n))) /\ tk' = tk
+    \/ \E n \in Names : DelAtt(-1, n, DelAttRc(-1, n)) /\ tk' = tk
+AttView == gatts
+EmitAll == PrintT("EMIT " \o ToJson([h |-> hist', chg |-> (gatts' # gatts)]))
+
 MCInit == Init0(Fmt) /\ tk = 1
 MCSpec == MCInit /\ [][MCNext]_<<vars_, tk>>
+AttSpec == MCInit /\ [][AttNext]_<<vars_, tk>>
 Bound == Len(hist) < Depth
 View == <<state, Len(hist)>>
 EmitEnd == Len(hist') # Depth \/ PrintT("EMIT " \o ToJson([h |-> hist', chg |-> TRUE]))
